@@ -132,3 +132,26 @@ Fixpoint omon_fold (step : nat) (ops : list val) (outs : list val) (prev : oobs)
 
 Definition mon_C18 (c impl : val) : val :=
   VL (omon_fold 0 (vL (vnth 1 c)) (vL impl) oobs0 (mkOtrack [] [] [])).
+
+(* C15 on the oracle module: which outputs survive the genesis round trip *)
+Definition k_c15_epoch := Eval vm_compute in okey "C15/lost:oracle-epoch".
+Definition k_c15_claims := Eval vm_compute in okey "C15/lost:oracle-claims-of-running-epoch".
+Definition k_c15_prices := Eval vm_compute in okey "C15/lost:oracle-prices".
+Definition k_c15_holders := Eval vm_compute in okey "C15/lost:oracle-holders".
+Definition mon_C15_oracle (c impl : val) : val :=
+  let outs := vL impl in
+  VL (snd (fold_left
+    (fun (acc : nat * list val) (ov : val) =>
+       let i := fst acc in
+       (S i, snd acc ++
+             (if (vI (vnth 0 ov) =? 5) && Nat.ltb 0 i then
+                let b := nth (i - 1) outs (VL []) in
+                let a := nth i outs (VL []) in
+                let ob := dec_oobs b in let oa := dec_oobs a in
+                (if N.eqb (oo_epoch oa) (oo_epoch ob) then [] else [VL [k_c15_epoch; VI (Z.of_nat i); vNat (oo_epoch ob); vNat (oo_epoch oa)]])
+                ++ (if veqb (vnth 3 (vnth 1 b)) (vnth 3 (vnth 1 a)) && veqb (vnth 4 (vnth 1 b)) (vnth 4 (vnth 1 a)) then []
+                    else [VL [k_c15_claims; VI (Z.of_nat i)]])
+                ++ (if opt_plist_eqb (oo_prices oa) (oo_prices ob) then [] else [VL [k_c15_prices; VI (Z.of_nat i)]])
+                ++ (if opt_pairs_eqb (oo_holders oa) (oo_holders ob) then [] else [VL [k_c15_holders; VI (Z.of_nat i)]])
+              else [])))
+    (vL (vnth 1 c)) (O, []))).
